@@ -4,6 +4,7 @@ import (
 	"encoding/json"
 	"flag"
 	"fmt"
+	"go/types"
 	"os"
 	"path/filepath"
 	"sort"
@@ -123,6 +124,10 @@ func genFor(p *Program, prop string, only string) ([]*FuncResult, []string) {
 			if ok {
 				out = append(out, VerifyLemma(p, key, k))
 			}
+			continue
+		}
+		if k.Kind == "interface" && k.Impls {
+			out = append(out, implResults(p, key, k, only)...)
 			continue
 		}
 		if k.Kind != "func" || k.Abstract {
@@ -457,4 +462,61 @@ func loadBaseline(path string) map[string]bool {
 // tryReplay: replay drivers per contract shape live in replay.go.
 func tryReplay(prop string, w *oblResult, model string, rep map[string]interface{}) bool {
 	return replayModel(prop, w, model, rep)
+}
+
+// implResults: behavioural subtyping - every implementation in /repo of an
+// interface method whose contract says `impls` is verified against it.
+func implResults(p *Program, key string, k *Contract, only string) []*FuncResult {
+	var out []*FuncResult
+	parts := strings.SplitN(k.Name, ".", 2) // Iface.Method
+	pkg := p.pkgs[k.Pkg]
+	if pkg == nil || len(parts) != 2 {
+		return nil
+	}
+	o := pkg.Pkg.Scope().Lookup(parts[0])
+	if o == nil {
+		return nil
+	}
+	it, ok := o.Type().Underlying().(*types.Interface)
+	if !ok {
+		return nil
+	}
+	k.IfaceType = o.Type()
+	for i := 0; i < it.NumMethods(); i++ {
+		if it.Method(i).Name() == parts[1] {
+			k.IfaceSig = it.Method(i).Type().(*types.Signature)
+		}
+	}
+	var names []string
+	for _, name := range pkg.Pkg.Scope().Names() {
+		names = append(names, name)
+	}
+	sort.Strings(names)
+	for _, name := range names {
+		tn, ok := pkg.Pkg.Scope().Lookup(name).(*types.TypeName)
+		if !ok || types.IsInterface(tn.Type()) {
+			continue
+		}
+		for _, t := range []types.Type{tn.Type(), types.NewPointer(tn.Type())} {
+			if !types.Implements(t, it) {
+				continue
+			}
+			sel := p.prog.MethodSets.MethodSet(t).Lookup(pkg.Pkg, parts[1])
+			if sel == nil {
+				continue
+			}
+			fn := p.prog.MethodValue(sel)
+			if fn == nil || fn.Synthetic != "" && !strings.Contains(fn.Synthetic, "wrapper") {
+				continue
+			}
+			ikey := "impl:" + funcKey(fn) + "=>" + k.Name
+			if only != "" && !strings.Contains(ikey, only) {
+				break
+			}
+			kk := *k
+			out = append(out, VerifyFunc(p, ikey, fn, &kk))
+			break
+		}
+	}
+	return out
 }
